@@ -1,7 +1,7 @@
 // Part 7 (pointcodec.go): the flag DISPATCH of the point codecs (ecc/<curve>/marshal.go) -> Gen/PointCodec/<Curve>.lean (C07, Props/C07_codec_gen).
 //
 // Translated statement by statement, per curve package: `isZeroed`, `isCompressed`, `isMaskInvalid` (when present),
-// `(*G1Affine).Bytes`, `RawBytes`, `setBytes`, `SetBytes`. Value semantics: a byte slice / byte array is a `List UInt8`, the receiver is the
+// `(*G1Affine).Bytes`, `RawBytes`, `setBytes`, `SetBytes` (secp256k1, which has no flag block: `RawBytes`, `setBytes`, `SetBytes` only). Value semantics: a byte slice / byte array is a `List UInt8`, the receiver is the
 // pair of coordinates (pX, pY), `setBytes` returns `Except GoErr (pX × pY × consumed)`.
 // Everything on base-field elements is a PARAMETER (structure `Prims F` of Model/PointCodecGo.lean): SetZero / IsZero, SetBytesCanonical,
 // BigEndian.PutElement, Square, Mul, Add, Neg, Sqrt, LexicographicallyLargest, bCurveCoeff, and IsInSubGroup of the point.
@@ -22,7 +22,7 @@ import (
 	"strings"
 )
 
-var pointCodecDirs = []string{"ecc/bn254", "ecc/grumpkin", "ecc/stark-curve", "ecc/bls12-377", "ecc/bls12-381", "ecc/bls24-315", "ecc/bls24-317", "ecc/bw6-633", "ecc/bw6-761"}
+var pointCodecDirs = []string{"ecc/bn254", "ecc/grumpkin", "ecc/stark-curve", "ecc/bls12-377", "ecc/bls12-381", "ecc/bls24-315", "ecc/bls24-317", "ecc/bw6-633", "ecc/bw6-761", "ecc/secp256k1"}
 
 type pcKind int
 
@@ -958,7 +958,8 @@ func runPointCodec() {
 		for _, name := range []string{"isZeroed", "isMaskInvalid", "isCompressed"} {
 			fd, ok := decls[name]
 			if !ok {
-				if name == "isMaskInvalid" {
+				// isMaskInvalid exists in the 3-bit family only; a package WITHOUT a flag block (secp256k1: raw encoding only) has no helper at all
+				if _, flagged := c.bytes["mMask"]; name == "isMaskInvalid" || !flagged {
 					continue
 				}
 				die("pointcodec: %s: %s not found", dir, name)
@@ -978,6 +979,9 @@ func runPointCodec() {
 		for _, name := range []string{"Bytes", "RawBytes"} {
 			fd, ok := decls["G1."+name]
 			if !ok {
+				if _, flagged := c.bytes["mMask"]; name == "Bytes" && !flagged {
+					continue
+				}
 				die("pointcodec: %s: (*G1Affine).%s not found", dir, name)
 			}
 			c.fn, c.retKind, c.retType, c.vars = "G1."+name, "res", "List UInt8", map[string]*pcVar{}
